@@ -1067,6 +1067,12 @@ unaryexpr(struct scope *s)
 		e = mkincdecexpr(op, l, false);
 		break;
 	case TBAND:
+		next();
+		e = castexpr(s);
+		/* mkunaryexpr admits any struct or union operand, because member access takes its address */
+		if (!e->decayed && !e->lvalue && e->type->kind != TYPEFUNC)
+			error(&tok.loc, "'&' operand is not an lvalue or function designator");
+		return mkunaryexpr(op, e);
 	case TMUL:
 		next();
 		return mkunaryexpr(op, castexpr(s));
